@@ -46,7 +46,7 @@ impl FromStr for Sorter {
         if reader.peek()? == Some(b'=') {
             reader.next()?;
         }
-        let direction = read_to_eof(&mut reader)?.to_uppercase();
+        let direction = read_to_eof(&mut reader)?.to_ascii_uppercase();
         let direction = match direction.as_str() {
             "" | "ASC" => Direction::Asc,
             "DESC" => Direction::Desc,
